@@ -25,6 +25,8 @@ COMPILE_CLASSES = {
     'input_type_without_display': 'C02-input-type-without-display',
     'nested_string_array_input': 'C02-nested-string-array-input',
     'missing_model': 'C07-array-component-inline-items',
+    'component_shadows_prelude': 'C02-component-shadows-prelude',
+    'operation_named_like_client_method': 'C02-operation-named-like-client-method',
 }
 
 
